@@ -33,6 +33,9 @@ AFFINE = [("TA", dict(T=3)), ("TB", dict(T=2)), ("TC", dict(T=2, nw=3, nc=2)), (
 # limit (DESIGN 5.3(d)); a is fixed to 2 and to 1/2 there, b and beta stay symbolic
 AFFINE_FIXED_A = [(("TD", dict(T=2, nw=3)), "2"), (("TD", dict(T=2, nw=3)), "1/2")]
 BETA0 = [("TA", dict(T=3, beta_sym=False)), ("TB", dict(T=2)), ("TC", dict(T=3, nw=3, nc=2)), ("TF", dict(T=3)), ("TE", dict(T=2)), ("TH", dict(T=3))]
+AFFINE_THOROUGH = [("TA", dict(T=4)), ("TA", dict(T=6)), ("TA", dict(T=2, nw=9, nc=5)), ("TB", dict(T=4)), ("TC", dict(T=3, nw=5, nc=3)), ("TG", dict(T=3)), ("TH", dict(T=5)), ("TM", dict(T=3)), ("TE", dict(T=3)), ("TK", dict(T=2)), ("TN", dict(T=2)), ("TQ", dict(T=2)), ("TP", dict(T=3))]
+BETA0_THOROUGH = [("TA", dict(T=5, beta_sym=False)), ("TB", dict(T=4)), ("TC", dict(T=4, nw=5, nc=3)), ("TF", dict(T=5)), ("TE", dict(T=3)), ("TK", dict(T=3)), ("TG", dict(T=3)), ("TQ", dict(T=3)), ("TP", dict(T=3)), ("TD", dict(T=2))]
+HORIZON_THOROUGH = [("TM", {}), ("TN", {}), ("TQ", {}), ("TE", dict(dep=("h", "d")))]
 HORIZON = [("TA", {}), ("TB", {}), ("TC", dict(nw=3, nc=2)), ("TH", {}), ("TG", {}), ("TJ", {})]
 
 
@@ -45,7 +48,11 @@ def units(tier):
     out += [("degenerate-transition[T=2]", "u_degenerate", {"T": 2})]
     out += [("degenerate-transition + second stochastic state, next_* declared in another order than the states [T=2]", "u_degenerate", {"T": 2, "second": True})]
     if tier == "thorough":
-        out += [("degenerate-transition[T=3]", "u_degenerate", {"T": 3}), ("affine:TA[T=4]", "u_affine", {"spec": ("TA", dict(T=4))})]
+        out += [("degenerate-transition[T=3]", "u_degenerate", {"T": 3})]  # T=4: z3 does not decide the period-1 cases within the limit
+        out += [("degenerate-transition + second stochastic state, next_* declared in another order than the states [T=3]", "u_degenerate", {"T": 3, "second": True})]
+        out += [(f"affine:{s[0]}{s[1]}", "u_affine", {"spec": s}) for s in AFFINE_THOROUGH]
+        out += [(f"beta0:{s[0]}{s[1]}", "u_beta0", {"spec": s}) for s in BETA0_THOROUGH]
+        out += [(f"horizon:{s[0]}{s[1]}", "u_horizon", {"spec": s, "hs": (1, 2, 3, 4, 5)}) for s in HORIZON_THOROUGH]
     return out
 
 
@@ -155,7 +162,7 @@ def u_affine(rec, spec, a_value=None):
                         return {"what": f"V'[{t}] != a*V[{t}] + b*sum beta^k", "observed": vb, "expected": exp, "inputs": v}
                 return None
 
-            full = (sj.zr(eb) == a * sj.zr(ea) + b * geo) if ma else None
+            full = (lambda ea=ea, eb=eb, geo=geo: sj.zr(eb) == a * sj.zr(ea) + b * geo) if ma else None
             rec.prove(f"affine[{t}]{list(idx)}", sj.zr(eb2) == a * sj.zr(ea2) + b * geo, assume, replay=composed_fallback(rec, SimpleNamespace(symbols=symbols), assume, full, replay))
     return {"bounds": {"template": A.name}, "symbols": len(symbols)}
 
@@ -372,7 +379,7 @@ def u_degenerate(rec, T, second=False):
 
             h = idx[0]
             claim = sj.x_eq(replace_topdown(Vs[t][idx], ma), replace_topdown(Vd[t][idx], mb))
-            full = sj.x_eq(Vs[t][idx], Vd[t][idx]) if ma else None
+            full = (lambda t=t, idx=idx: sj.x_eq(Vs[t][idx], Vd[t][idx])) if ma else None
             for combo in itertools.product(range(2), repeat=2):
                 case = [S.symbols[f"D_{h}_{d}_{t}"] == v for d, v in enumerate(combo)]
                 rec.prove(f"degenerate[{t}]{list(idx)}|D[{h},.,{t}]={combo}", claim, assume + case, replay=composed_fallback(rec, S, assume + case, full, replay))
